@@ -1,4 +1,5 @@
 import BM.Sanitize
+import BM.Props.Pins
 /-
   C14 (no panic): for every policy and every token sequence the loop never reaches one of
   the partial operations of the Go code:
